@@ -967,7 +967,7 @@ func TestVerifC19(t *testing.T) {
 		dir = t.TempDir()
 	}
 	_ = os.MkdirAll(dir, 0o755)
-	nInst := verifkit.N(40, 500)
+	nInst := verifkit.N(40, 1000)
 	nOps := verifkit.N(45, 70)
 	var world *vwWorld
 	for i := 0; i < nInst; i++ {
